@@ -161,12 +161,12 @@ Proof.
   intros nmj. induction ds as [|[w m] ds IH]; intros tail Hd Ht.
   - cbn. eapply SO_end with (X' := []); [|reflexivity]. intros sc Hc.
     destruct (get_json_blanks tail sc Ht Hc) as (sc' & E & Hc'). exists sc'. unfold new_map_json_reader_raw. rewrite E. auto.
-  - inversion Hd as [|? ? [Hw [Hs Hok]] Hd']; subst. cbn in Hw, Hs, Hok. cbn [jstream map fst snd].
-    unfold jdoc_val. destruct (nmj (marshal (VMap m))) as [v| |] eqn:En; try discriminate.
+  - inversion Hd as [|? ? [Hw [Hs Hok]] Hd']; subst. cbn [fst snd] in Hw, Hs, Hok. cbn [jstream map fst snd].
+    unfold jdoc_val. destruct (nmj (marshal (VMap m))) as [v| |] eqn:En; try (cbn in Hok; discriminate).
     eapply SO_doc with (X' := jstream ds tail); [|now apply IH]. intros sc Hc.
     destruct (get_json_doc w m _ sc Hw Hs Hc) as (sc' & E & Hc'). exists sc'. unfold new_map_json_reader_raw. rewrite E.
     destruct (marshal_vmap_cons m) as [t Hm]. rewrite Hm in *. rewrite En. auto.
-Show. Qed.
+Qed.
 
 Lemma json_stream_of : forall nmj ds tail, jdocs_ok nmj ds -> blank tail = true ->
   stream_of (with_unit_raw (new_map_json_reader nmj)) (jstream ds tail)
@@ -176,8 +176,8 @@ Proof.
   - cbn. eapply SO_end with (X' := []); [|reflexivity]. intros sc Hc.
     destruct (get_json_blanks tail sc Ht Hc) as (sc' & E & Hc'). exists sc'.
     unfold with_unit_raw, new_map_json_reader. rewrite E. auto.
-  - inversion Hd as [|? ? [Hw [Hs Hok]] Hd']; subst. cbn in Hw, Hs, Hok. cbn [jstream map fst snd].
-    unfold jdoc_val. destruct (nmj (marshal (VMap m))) as [v| |] eqn:En; try discriminate.
+  - inversion Hd as [|? ? [Hw [Hs Hok]] Hd']; subst. cbn [fst snd] in Hw, Hs, Hok. cbn [jstream map fst snd].
+    unfold jdoc_val. destruct (nmj (marshal (VMap m))) as [v| |] eqn:En; try (cbn in Hok; discriminate).
     eapply SO_doc with (X' := jstream ds tail); [|now apply IH]. intros sc Hc.
     destruct (get_json_doc w m _ sc Hw Hs Hc) as (sc' & E & Hc'). exists sc'.
     unfold with_unit_raw, new_map_json_reader. rewrite E.
